@@ -135,6 +135,45 @@ def check_dofpv(uset, rows, res):
         got = n2p.expanddof(arr)
         if np.asarray(got).tolist() != want:
             msgs.append("expanddof(%s) = %s, expected the components in the order given: %s" % (req, np.asarray(got).tolist(), want))
+    # DOF tables given as plain [id, dof] arrays: ids non-decreasing with the components of an id in ANY order, ids in any
+    # order; every request returns the row numbers of exactly those (id, dof) pairs
+    for tab in ([[3, 1], [3, 3], [3, 2], [5, 0], [7, 2], [7, 1]], [[7, 6], [7, 1], [3, 2], [3, 1], [5, 0]], [[3, 3], [3, 2], [3, 1], [4, 3], [4, 2], [4, 1]]):
+        T = np.array(tab)
+        allreq = [[list(r) for r in tab], [list(r) for r in tab[::-1]], [list(tab[2]), list(tab[0])], [[3, 21]], [[3, 12], list(tab[-1])]]
+        for req in allreq:
+            exp = []
+            for i, c in req:
+                exp.extend([i, int(ch)] for ch in str(int(c)))
+            want = [tab.index(e) for e in exp if e in tab]
+            for strict in (True, False):
+                if strict and len(want) != len(exp):
+                    continue
+                try:
+                    pv, out = n2p.mkdofpv(T, "p", np.array(req), strict=strict)
+                except Exception as e:  # noqa
+                    msgs.append("mkdofpv(table %s, %s, strict=%s) raised %r" % (tab, req, strict, e))
+                    continue
+                res.ev("dofpv/plain-table/strict%d" % strict)
+                if list(pv) != want:
+                    msgs.append("mkdofpv(table %s, %s, strict=%s) -> rows %s, the pairs are in rows %s" % (tab, req, strict, list(pv), want))
+    # ids given as an (n, 1) column, with and without scalar points included
+    for go in (True, False):
+        ids1 = [r[0] for r in rows if r[1] in (0, 1)]
+        e1 = np.asarray(n2p.expanddof(ids1, grids_only=go)).tolist()
+        e2 = np.asarray(n2p.expanddof(np.array(ids1).reshape(-1, 1), grids_only=go)).tolist()
+        if e1 != e2:
+            msgs.append("expanddof of an (n, 1) id column (grids_only=%s) = %s differs from the 1-D id list form %s" % (go, e2[:8], e1[:8]))
+        try:
+            with warnings.catch_warnings():
+                warnings.simplefilter("ignore")
+                p1 = n2p.mkdofpv(uset, "p", ids1, strict=False, grids_only=go)[0].tolist()
+                p2 = n2p.mkdofpv(uset, "p", np.array(ids1).reshape(-1, 1), strict=False, grids_only=go)[0].tolist()
+            wantp = [i for i, r in enumerate(rows) if (r[1] != 0 or not go)]
+            res.ev("dofpv/idcolumn/go%d" % go)
+            if p1 != p2 or (not go and p1 != list(range(len(rows)))):
+                msgs.append("mkdofpv(ids as an (n, 1) column, grids_only=%s) -> %s; with a 1-D id list %s; all rows: %d" % (go, p2[:14], p1[:14], len(rows)))
+        except Exception as e:  # noqa
+            msgs.append("mkdofpv with an id column (grids_only=%s) raised %r" % (go, e))
     for setname in ("p", "a", "b", "q", "g", "b+q", "a+b", "l+t"):
         mem = members(setname)
         sub = [i for i, l in enumerate(letters) if l in mem]
@@ -317,6 +356,23 @@ def check_locate(res, which):
                         locate.index2slice(np.array(pv, dtype=int), strict=True)
                         msgs.append("index2slice(%s, strict=True) did not raise" % pv)
                     except ValueError:
+                        pass
+                nn = 7
+                if pv and all(-nn <= v < nn for v in pv):
+                    # negative positions count from the end; a boolean mask selects its True positions
+                    sel = sorted(set(v % nn for v in pv))
+                    fl = locate.flippv(pv, nn)
+                    tf = locate.index2bool(pv, nn)
+                    mask = np.zeros(nn, bool)
+                    mask[sel] = True
+                    flm = locate.flippv(mask, nn)
+                    if fl.tolist() != [i for i in range(nn) if i not in sel] or tf.tolist() != mask.tolist() or flm.tolist() != fl.tolist():
+                        msgs.append("flippv/index2bool(%s, %d) with negative positions / a boolean mask: %s / %s / %s; the selected positions are %s" % (pv, nn, fl.tolist(), tf.tolist(), flm.tolist(), sel))
+                if pv and max(pv) >= 7:
+                    try:
+                        locate.flippv([max(pv) + 7], 7)
+                        msgs.append("flippv with an out-of-range position did not raise")
+                    except IndexError:
                         pass
                 if all(v >= 0 for v in pv):
                     nn = 7
